@@ -8,23 +8,12 @@ ASSUMPTIONS = [
     "rayon's scheduler is abstracted to 'an idle worker of the pool may start any queued task; yield_now on a pool "
     "thread may run a queued task; a non-pool thread never runs tasks'; crossbeam bounded channels are FIFO queues "
     "with blocking send/recv and non-blocking try_send/try_recv; the OS scheduler is weakly fair",
-    "a run that does not end within the watchdog (10 s, retried with 60 s outside the known class) is a deadlock",
+    "a run that does not end within the watchdog (10 s, retried with 60 s except in the class repaired as defect "
+    "7b, where a deadlock would be deterministic) is a deadlock",
+    "one call at a time: the ordered machine has a single caller, every other worker of the global pool is "
+    "available to the consumer tasks (concurrent calls that block all the workers of the global pool are outside "
+    "the model and outside the matrix)",
 ]
-
-KNOWN_7B = ("par_map_fold_ord_with (and par_map_fold_ord) deadlocks when called from a task running in the global "
-            "rayon pool and that pool has a single thread (RAYON_NUM_THREADS=1): the feeder std::thread spawns the "
-            "consumers into the global pool, whose only worker is blocked in the caller's result-drain loop; every "
-            "input length, 0 included (webgraph/src/traits/par_map_fold.rs, par_map_fold_ord_with)")
-
-
-def known_7b(case, failing):
-    """ordered variant, caller is a worker of the global pool, global pool size 1, and the
-    only failure is non-termination"""
-    if case.get("variant") != "ord" or case.get("site") not in ("gspawn", "gdetach") or case.get("g") != "1":
-        return None
-    if all(f.startswith("terminated:") for f in failing):
-        return KNOWN_7B
-    return None
 
 
 def key(case):
@@ -37,7 +26,8 @@ def run(ctx):
     quick = ctx["tier"] == "quick"
     r = codec.run_simple("C11", ctx, "pmf", ["--mode", "quick" if quick else "thorough"],
                          oracle_aspects={"terminated", "value", "status"},
-                         corr_aspects={"verdict", "mvalue", "mseq", "threads", "expect"},
+                         corr_aspects={"verdict", "mvalue", "mseq", "threads", "expect", "cpool", "worker", "branch",
+                                       "seqorder"},
                          nontrivial=key, timeout=3000)
     r["rule"] = ("CLI commands build dcf / analyze codes / run llp with --num-threads 1,2,4 on a 3000-node graph, "
                  "granularity 100 (30 chunks); 8 entry points (par_map_fold, _with, par_map_fold2, _with, par_map_fold_ord, _with, par_node_apply, "
@@ -46,6 +36,6 @@ def run(ctx):
                  "pool, detached task of the global pool} x global pool sizes {1,2,16}; each run in a child process "
                  "under a watchdog; non-trivial = at least one item; distinct = different (entry point, length, site, "
                  "pool, global pool)")
-    violations, known = codec.verdict("C11", r, known_matchers=[known_7b])
+    violations, known = codec.verdict("C11", r, known_matchers=[])
     r.update({"violations": violations, "known": known})
     return r
